@@ -294,6 +294,7 @@ class Case:
         self.obj = Adaptee()
         self.dead_args = 0
         if point == 'super_self':
+            DEAD_IDS.clear()
             # a subclass of super whose __self__ is computed: the lookup is the only owner of what it gets
             class FreshAdaptee(Fresh, Adaptee):
                 pass
@@ -333,7 +334,9 @@ class Case:
             class SVal(Val):
                 def __call__(self_, *obs):
                     for o in obs:
-                        if id(o) in DEAD_IDS:     # only the address is looked at
+                        # only the address and the type pointer are looked at; an object of another type living at
+                        # the address of a finalized Fresh object (the proxy itself, anything else) is not a dead Fresh
+                        if id(o) in DEAD_IDS and issubclass(type(o), Fresh):
                             case.dead_args += 1
                     return ('made', self_.tag)
             return SVal(tag)
